@@ -340,6 +340,13 @@ def check(ctx, rep):
                    'ResolveRegistry::resume: the lookup, the resolution and the removal of an entry are not inside one region of the registry lock '
                    '(%d lock region(s)): a concurrent response for the same id can interleave' % len(regions))
     c09.check_entry_writers(rep, 'R08.f', core)
+    # R08.h: when all calls have returned the core is quiescent and no wake-up was dropped: the executor loops run to quiescence and a task
+    # another thread is polling gets its id back on the ready queue (shared with C01 R01.e); R08.i every wake does the whole job
+    rep.rule('R08.h', 'the executor loops run to quiescence and re-queue a task that is out of its slot', floor=6)
+    c01.check_executor_loops(rep, core, rid='R08.h')
+    from rules.props import c05 as _c05
+    rep.rule('R08.i', 'every way of waking a task waker enqueues the task, marks it woken and wakes the parent, on every path', floor=5)
+    _c05.check_wake_impls(rep, 'R08.i', core, None)
     # R08.g: concurrent callers serialise on the model lock and each one finishes its own work: update takes the model through a BLOCKING
     # write() (a try_write that gives up leaves the caller's events to "whoever holds the lock", which may be a reader in view())
     rep.rule('R08.g', 'App::update / App::view take the model through blocking guards of the model lock; update is alone in its region', floor=2)
